@@ -23,8 +23,14 @@ def pivot():
         U("IoError2"), U("Empty", parens=True),
     ], note="all kinds, 0..3 tuple fields of distinct types, digits/acronyms in identifiers, disabled tuple variant, empty tuple variant"))
     S.append(EnumSpec("DisAttr", [U("A", fields=[Field("u8")]), U("H1", disabled=True, message="m", flags_last=True, fields=[Field("u8")]),
-                                  U("B"), U("H2", disabled=True, attr_style="trailing"), U("C", fields=[Field("u16"), Field("u8")])],
-                      note="`disabled` after a key = value item in the same attribute / with a trailing comma"))
+                                  U("B"), U("H2", disabled=True, attr_style="trailing"), U("C", fields=[Field("u16"), Field("u8")]),
+                                  U("H3", disabled=True, message="m3", fields=[Field("u16")]), U("H4", disabled=True, detailed_message="d", attr_style="split"),
+                                  U("H5", disabled=True, props=[[("pk", "v")]], fields=[Field("u8")])],
+                      note="`disabled` before / after a key = value item in the same attribute, with a trailing comma, split over attributes, next to props"))
+    S.append(EnumSpec("Stems", [U("Lock", fields=[Field("u8")]), U("LockMutex", fields=[Field("u16")]), U("Cache", fields=[Field("u8")]), U("CacheRefresh", fields=[Field("u32")]),
+                                U("Gene"), U("GeneMutation", fields=[Field("u8"), Field("u16")]), U("Mut", fields=[Field("u8")]), U("Ref", fields=[Field("bool")]),
+                                U("Try", fields=[Field("u8")]), U("Is")],
+                      note="identifiers that extend one another by a word starting with Ref/Mut, and identifiers equal to the method-name affixes (no two method names collide)"))
     S.append(EnumSpec("OneEnabled", [U("Only", fields=[Field("u8")]), U("Off", disabled=True), U("Off2", disabled=True, fields=[Field("u8")])],
                       note="exactly ONE enabled variant next to disabled ones (a single-arm shortcut must still say false for the disabled values)"))
     S.append(EnumSpec("OneUnit", [U("Solo")], note="a true single-variant enum"))
@@ -104,6 +110,22 @@ def program(spec: EnumSpec, pname, tier):
         lines.append("    let want: usize = match k { %s _ => usize::MAX };" % " ".join("%d => %d," % (i, q) for q, (i, v) in enumerate(en)))
         lines.append('    if want == usize::MAX { assert!(n_true == 0, "an is_*() predicate is true for a disabled variant"); }')
         lines.append('    else { assert!(n_true == 1, "not exactly one is_*() predicate is true"); assert!(which == want, "the true is_*() predicate is not the one named after the value\'s variant"); }')
+    # methods that must NOT be generated (disabled variants): a fallback trait is shadowed by an inherent method if one exists
+    dis = [(i, v) for i, v in enumerate(spec.variants) if v.disabled]
+    if dis:
+        fb = ["pub trait NoSuchMethod: Sized {"]
+        for i, v in dis:
+            sn = casing.snake_method(v.ident)
+            fb.append("    fn is_%s(&self) -> bool { false }" % sn)
+            fb.append("    fn try_as_%s(self) -> Option<()> { None }" % sn)
+            fb.append("    fn try_as_%s_ref(&self) -> Option<()> { None }" % sn)
+            fb.append("    fn try_as_%s_mut(&mut self) -> Option<()> { None }" % sn)
+            lines.append('    assert!(!e.is_%s(), "an is_*() predicate exists for a disabled variant and is true");' % sn)
+            if v.kind == "tuple":
+                lines.append('    assert!(e.try_as_%s_ref().is_none() && e.clone().try_as_%s().is_none() && e.try_as_%s_mut().is_none(), "a try_as_*() accessor exists for a disabled variant and returns Some");' % (sn, sn, sn))
+        fb.append("}")
+        fb.append("impl NoSuchMethod for %s {}" % E)
+        helper += "\n".join(fb) + "\n"
     # try_as_*
     for i, v in en:
         if v.kind != "tuple":
